@@ -180,9 +180,12 @@ def rule_plumbing(ck: Check, repo: Repo) -> None:
     src = ast.unparse(an)
     ahf = find_calls(an, lambda c, f: f == "add_header_to_file")
     from ..rules import deep_text
-    gri = [deep_text(an, kw.value) for c in ahf for kw in c.keywords if kw.arg == "reuse_info"]
-    ok = "template, commented = get_template(template_str, project)" in src and "template=template" in src and \
-        "template_is_commented=commented" in src and bool(gri) and all("get_year(years, exclude_year)" in g for g in gri)
+    from ..model import kwarg as _kw0
+    gri = [deep_text(an, _kw0(c, "reuse_info")) for c in ahf if _kw0(c, "reuse_info") is not None]
+    from ..model import kwarg as _kw
+    tpl = [(ast.unparse(_kw(c, "template") or ast.Constant(None)), ast.unparse(_kw(c, "template_is_commented") or ast.Constant(None))) for c in ahf]
+    ok = "template, commented = get_template(template_str, project)" in src and bool(tpl) and all(t == ("template", "commented") for t in tpl) \
+        and bool(gri) and all("get_year(years, exclude_year)" in g for g in gri)
     r.instance("template-plumbing", {"ok": ok})
     if not ok:
         r.violation(aq, "template plumbing", "template and its `commented` flag must come from get_template(template_str, project)",
